@@ -6,7 +6,7 @@
 From Coq Require Import NArith List Bool.
 From LV Require Import lib.Bytes lib.Lex lib.SortedMap spec.KvSpec spec.KvOps spec.KvStackSpec
   model.PrefixRange model.Table model.Flushable model.KvStack
-  proofs.FlushableIter proofs.KvStackReads proofs.KvStackWrites proofs.KvStackViews proofs.KvStackRefine proofs.KvExamples.
+  proofs.FlushableIter proofs.KvStackReads proofs.KvStackWrites proofs.KvStackViews proofs.KvStackRefine proofs.KvExamples proofs.KvLive model.FlushableHeap proofs.FlushableHeapProofs.
 Import ListNotations.
 Local Open Scope N_scope.
 
@@ -30,6 +30,20 @@ Proof. exact flu_iterate_spec. Qed.
 Theorem C22_next_step : forall prefix fuel s, (fit_size s < fuel)%nat -> Inv prefix s ->
   next_ok prefix s (fit_next fuel prefix s).
 Proof. exact fit_next_spec. Qed.
+(* the drain loop never reports out-of-fuel (None) for the fuel the model uses *)
+Theorem C22_collect_total : forall prefix n s, (fit_size s < n)%nat -> Inv prefix s ->
+  fit_collect n prefix s = Some (spec_rest prefix s).
+Proof. exact fit_collect_spec. Qed.
+(* an iterator created at state s and drained later — after reads, snapshots, batch building, other
+   iterators and, over a live-safe stack (one tree-bearing layer above an engine), Flush and
+   DropNotFlushed — yields the (prefix,start)-filter of the view AT s *)
+Theorem C22_live_iterator : forall lsafe ideal r i h P S mid n,
+  wf_st (h_view h (r_store r)) -> wf_bytes (ob P) = true -> Forall (quiet lsafe i) mid ->
+  let r1 := fst (run_op lsafe ideal r (OLit i h P S)) in
+  let r2 := run_state lsafe ideal r1 mid in
+  snd (run_op lsafe ideal r2 (OLNext i n)) =
+    [BLive (Some (firstn n (kv_iterate (view (h_view h (r_store r))) (ob P) (ob S))))].
+Proof. exact live_iterator_stable. Qed.
 (* over any parent stack *)
 Theorem C22_iterate : forall o u P S, wf_st (Flu o u) -> wf_bytes (ob P) = true ->
   st_iter (Flu o u) P S = kv_iterate (merge_overlay o (view u)) (ob P) (ob S).
@@ -60,13 +74,42 @@ Theorem C22_not_flushed_pairs : forall (o : tree) log, sm_sorted o -> (forall k,
   flu_size o = kv_log_keys log.
 Proof. exact nfp_is_distinct_keys. Qed.
 
+(* Snapshots, mechanism: over the MUTABLE-object model (tree objects mutated in place by
+   Put/Delete/Clear, engine with live content and immutable snapshots) the object built by
+   GetSnapshot as coded — a copy of the tree in a NEW object + the parent's SNAPSHOT — reads, after
+   any later puts, deletes, flushes, drops, direct parent writes and further snapshots, exactly what
+   the store read when it was taken; and that is what the run model's snapshot value reads.
+   (Sharing the tree object or reading through the live parent is refuted in
+   proofs/FlushableHeapProofs.v: snapshot_shared_tree_refuted, snapshot_live_parent_refuted.) *)
+Theorem C22_snapshot_immutable : forall t H ops, (t < length (h_trees H))%nat ->
+  let '(H1, sn) := get_snapshot t H in
+  forall k p s,
+    snap_get (hrun t H1 ops) sn k = store_get t H k /\
+    snap_iter (hrun t H1 ops) sn p s = store_iter t H p s.
+Proof. exact snapshot_is_immutable. Qed.
+Theorem C22_snapshot_matches_run_model : forall e t H ops k, (t < length (h_trees H))%nat ->
+  snap_get (hrun t (fst (get_snapshot t H)) ops) (snd (get_snapshot t H)) k = st_get (heap_abs e t H) k.
+Proof. exact snapshot_matches_run_model. Qed.
+Theorem C22_heap_model_is_run_model : forall e ideal t H o, (t < length (h_trees H))%nat ->
+  heap_abs e t (hstep t H o) =
+  match o with
+  | HPut k v => st_put (heap_abs e t H) k v
+  | HDel k => st_del (heap_abs e t H) k
+  | HFlush => st_flush ideal (heap_abs e t H)
+  | HDrop => st_drop (heap_abs e t H)
+  | HParentPut k v => st_upd 1 (fun u => st_put u k v) (heap_abs e t H)
+  | HParentDel k => st_upd 1 (fun u => st_del u k) (heap_abs e t H)
+  | HSnapshot => heap_abs e t H
+  end.
+Proof. exact heap_abs_step. Qed.
+
 (* all reachable states, snapshots included: for every op sequence (puts, deletes, batches, reads,
    iterations, flushes, drops, NotFlushedPairs, snapshots and later reads of them, at every level of
    every stack) the model run equals the specification run, in which a flushable is its parent's
    map overlaid with the LOG of writes since the last flush/drop, NotFlushedPairs is the number of
    distinct keys of that log and a snapshot is the map value at the time it was taken *)
-Theorem C22_histories : forall ideal s0 ss0 ops, R s0 ss0 -> Forall op_wf ops ->
-  map erase (run ideal s0 ops) = spec_run ss0 ops.
+Theorem C22_histories : forall lsafe ideal s0 ss0 ops, R s0 ss0 -> Forall op_wf ops ->
+  map erase (run lsafe ideal s0 ops) = spec_run lsafe ss0 ops.
 Proof. exact run_refines. Qed.
 
 (* non-vacuity *)
@@ -78,6 +121,15 @@ Example C22_ex_state :
   st_iter (Flu o u) (Some [255]) None = [([255], [3]); ([255; 255], [])] /\
   st_get (Flu o u) [0] = None /\ st_nfp (Flu o u) = Some 3%nat.
 Proof. vm_compute. repeat split; repeat constructor. Qed.
+Example C22_ex_heap :
+  let H := {| h_trees := [[([97], Some [1])]]; h_cur := [([98], [2])]; h_snaps := [] |} in
+  snap_get (hrun 0 (fst (get_snapshot 0 H)) [HPut [98] [3]; HFlush; HDel [97]; HDrop; HParentDel [98]])
+           (snd (get_snapshot 0 H)) [98] = Some [2] /\
+  store_get 0 (hrun 0 (fst (get_snapshot 0 H)) [HPut [98] [3]; HFlush; HDel [97]; HDrop; HParentDel [98]]) [98] = None.
+Proof. split; vm_compute; reflexivity. Qed.
+Example C22_ex_quiet : quiet true 0 (OFlush 0) /\ quiet true 0 (ODrop 0) /\ quiet true 0 (OSnap h0) /\
+  ~ quiet true 0 (OPut h0 [] []) /\ ~ quiet false 0 (OFlush 0).
+Proof. exact quiet_flush_drop. Qed.
 Example C22_ex_R :
   R (Flu [([0], None); ([97], Some [1])] (Mem [])) (SFlu [WPut [97] [5]; WDel [0]; WPut [97] [1]] (SEng [])).
 Proof. exact ex_R_flu. Qed.
@@ -89,6 +141,8 @@ Print Assumptions C22_get.
 Print Assumptions C22_has.
 Print Assumptions C22_merged_iterator.
 Print Assumptions C22_next_step.
+Print Assumptions C22_collect_total.
+Print Assumptions C22_live_iterator.
 Print Assumptions C22_iterate.
 Print Assumptions C22_write.
 Print Assumptions C22_flush.
@@ -96,4 +150,7 @@ Print Assumptions C22_lazy_before_flush.
 Print Assumptions C22_lazy_flush.
 Print Assumptions C22_drop.
 Print Assumptions C22_not_flushed_pairs.
+Print Assumptions C22_snapshot_immutable.
+Print Assumptions C22_snapshot_matches_run_model.
+Print Assumptions C22_heap_model_is_run_model.
 Print Assumptions C22_histories.
